@@ -190,6 +190,6 @@ def hdr : Handler := fun args impl =>
   | _ => unmodelled
 
 def handlers : List (String × Handler) :=
-  [("benc", enc), ("brt", rt), ("bdec", dec), ("balign", align), ("balignn", alignn), ("bhdr", hdr)]
+  [("benc", enc), ("brt", rt), ("brta", rt), ("bdec", dec), ("balign", align), ("balignn", alignn), ("bhdr", hdr)]
 
 end OFV.Driver.C19
